@@ -533,6 +533,29 @@ def run(ck, prog, ctx):
             a1, a2 = fs.get(("f", "idx1")), fs.get(("f", "idx2"))
             ck.ob("STATE", "combinations/set_to_last", a1 == {"LEN": _Fr(1), (): _Fr(-1)} and a2 == {}, "set_to_last positions the iterator at (idx1, idx2) = (%s, %s) (expected (len - 1, 0): the pairs of the LAST slot with every earlier one)" % (fa_fmt(a1), fa_fmt(a2)), where=cstl.where())
 
+    # ------------------------------------------------------------------ indicies(): a node is a LEAF iff its index is below initial_len
+    # (index initial_len is the first merged cluster: `<=` reports it as an input)
+    ind = prog.one(r"^stats::linkage::Linkage::<'a>::indicies$")
+    if ind is not None:
+        from engines import compare_switches as _cmp, relation_cases as _cases
+        tests = []
+        for cs in _cmp(ind, pvn):
+            lf, rf = field_names(pvn.of_operand(ind, cs["l"]), "Linkage"), field_names(pvn.of_operand(ind, cs["r"]), "Linkage")
+            if "initial_len" in rf and "initial_len" not in lf:
+                tests.append((cs, False))
+            elif "initial_len" in lf and "initial_len" not in rf:
+                tests.append((cs, True))
+        pushes = {bi for bi, t in ind.calls() if t.callee.method == "push"}
+        if not tests or not pushes:
+            ck.undecided("ROLE", "indicies/leaf-test", "the comparison of a node index with initial_len is not recognised in indicies()", where=ind.where())
+        for n_, (cs, swapped) in enumerate(tests):
+            cases = _cases(cs, swap=swapped)  # node index against initial_len
+            pushed = {k for k, tg in cases.items() if tg is not None and any(ind.edge_dominates((cs["bb"], tg), pb) for pb in pushes)}
+            ck.ob("ROLE", "indicies/leaf-test/%d" % n_, pushed == {"lt"}, "indicies() reports a node as an input when its index is %s initial_len (expected: below - index initial_len is the first merged cluster, not an input)" % (
+                "/".join({"lt": "below", "eq": "equal to", "gt": "above"}[k] for k in ("lt", "eq", "gt") if k in pushed) or "never compared favourably with"), where=ind.where(cs["line"]))
+        if tests:
+            ck.ob("ROLE", "indicies/both-nodes", len(tests) == 2, "indicies() tests %d node(s) of every merge against initial_len (expected both: lhs and rhs)" % len(tests), where=ind.where())
+
     # the number of input sets is the length of the collected vector, not an iterator's size hint
     from engines import check_size_hint_counts
     check_size_hint_counts(ck, "ROLE", prog, r"^src/stats/linkage")
